@@ -827,6 +827,13 @@ NextPin:
 		}
 
 		if parentID == "root" {
+			for _, p := range points {
+				if p.Type == data.PointTypeTombstone && p.Value != 0 {
+					// this node is about to become the instance root
+					rollback()
+					return fmt.Errorf("Error, can't delete root node")
+				}
+			}
 			log.Println("inserting new root node, update root in meta")
 			_, err = tx.Exec("UPDATE meta SET root_id = ?", nodeID)
 			if err != nil {
